@@ -19,7 +19,7 @@ SHARDS = {"quick": 6, "thorough": 16}
 TIMEOUT = {"quick": 900, "thorough": 3400}
 OP = "sync_history"
 RULE = (
-    "histories of 2..4 sync invocations (same truth repeated; or truth kind switched mid-history and then repeated) over "
+    "each third history ends with the truth named second after a missing file of its kind (truth bytes must not change); histories of 2..4 sync invocations (same truth repeated; or truth kind switched mid-history and then repeated) over "
     "generated projects starting from every combination of target pre-states (the 3 x 25 x 2 product is cycled through), "
     "a third of the projects named through a symlinked directory, half with hand-written comments above existing definitions; "
     "API runs under the audit hook + CLI runs on a sample; one evaluation = one history; byte snapshots between runs; "
